@@ -41,7 +41,7 @@ int main()
   auto A = std::make_shared<RecSink>(); auto B = std::make_shared<RecSink>();
   auto C = std::make_shared<RecSink>(quill::PatternFormatterOptions{"OVR %(log_level) %(message)"});
   B->add_filter(std::make_unique<NoX>());
-  quill::Logger* lg = quill::Frontend::create_or_get_logger("lf", {std::static_pointer_cast<quill::Sink>(A), std::static_pointer_cast<quill::Sink>(B), std::static_pointer_cast<quill::Sink>(C)},
+  quill::Logger* lg = quill::Frontend::create_or_get_logger("lf", {std::static_pointer_cast<quill::Sink>(A), std::static_pointer_cast<quill::Sink>(C), std::static_pointer_cast<quill::Sink>(B)},   /* the override sink sits BETWEEN two sinks that use the logger pattern */
                                                             quill::PatternFormatterOptions{"LOG %(log_level) %(message)"});
   Obl o1{"levels.reaches_sink_iff_passes", "C16", "", "a statement reaches a sink exactly when its level passes the logger's level at the time of the call, the sink's level filter and the sink's filters - independently per sink, in order"};
   Obl o2{"levels.own_formatting_and_level", "C16", "", "each sink receives the statement formatted with its own pattern (override pattern if it has one) and is told the statement's effective level (static or dynamic)"};
